@@ -133,7 +133,9 @@ def sent_c(chk, fx):
     f = fx.need(P + "get_current_term")[0]
     cn = Canon(f)
     rets = [(cn.c(n["value"]), cn.guards(n)) for n in walk(f.body) if n.get("k") == "ReturnStmt"]
-    if any(v == "uninitialized16" and any(re.fullmatch(r"\(\$0\.current_term_idx == uninitialized16\)", g) for g in gs) for v, gs in rets):
+    # the test may be made on the pending term (after the result's index was stored there) or on the result itself
+    if any(v == "uninitialized16" and any(re.fullmatch(r"\((\$0\.current_term_idx|\?\w+\.term_idx) == uninitialized16\)", g)
+                                           for g in gs) for v, gs in rets):
         chk.ok("SENT-C", A.site(f), "get_current_term treats term_idx == uninitialized16 as 'nothing recognised'")
     else:
         chk.violation("SENT-C", A.site(f), "SENT-C:test", "the failure test of get_current_term is %s" % [g for v, g in rets if v == "uninitialized16"])
